@@ -2,7 +2,7 @@
    Proved here: order independence of the bundle ordering and of everything the validation theorems
    quantify up to permutation, and independence of the repetition count in the element store.
    Agreement with a standard parser: reader_extracts_tree - for EVERY document in the plain form (any tree of elements with
-   word names, double-quoted non-empty attributes on the start tag's line, text without '<', any whitespace between elements,
+   word names, double-quoted non-empty attributes on the start tag's line (any blanks before, between and after them), text without '<', any whitespace between elements,
    self-closing or empty-pair form, any repetition count; no element nested in one of the same name; depth within the reader's
    limit) the reader model returns exactly the tree's data in its documented shape, and anything before the KSR element is
    ignored. That the real documents are such trees and that the reader model is the real reader is the correspondence. *)
@@ -49,7 +49,7 @@ Print Assumptions C12_prolog_without_lt.
 
 (* the premises are satisfiable: a small document with attributes, repeated names, an empty pair and a self-closing element *)
 Example C12_plain_form_example :
-  let t := Node [75;83;82] [([32],[105;100],[120]); ([32;32],[100],[46])] [10;32]
-             [Node [82] [] [10] [Leaf [65] [] [32] [49;50] [10] [10]; Leaf [65] [([32],[107],[118])] [] [] [] [32]; Empty [66] [([9],[115],[50])] [10]] [10]] [10] in
+  let t := Node [75;83;82] [([32],[105;100],[120]); ([32;32],[100],[46])] [32;9] [10;32]
+             [Node [82] [] [] [10] [Leaf [65] [] [] [32] [49;50] [10] [10]; Leaf [65] [([32],[107],[118])] [32] [] [] [] [32]; Empty [66] [([9],[115],[50])] [] [10]] [10]] [10] in
   wf t = true /\ (height t <= 5)%nat.
 Proof. split; [reflexivity|cbn; lia]. Qed.
